@@ -24,7 +24,7 @@ package runtime
 
 //@ func RunSliceExpr
 // a list slice is a new list (never storage shared with the source)
-//@ ensures[C04] result2 == nil && result1 == ast.List ==> typeis(result0, []any) && fresh(result0.([]any))
+//@ ensures[C04,C15,C16] result2 == nil && result1 == ast.List ==> typeis(result0, []any) && fresh(result0.([]any))
 // forward slices: the indices taken are start, start+step, ... - every one inside [start, end), the
 // one after the last outside it - and the element taken last is the source element at its index
 // (elements taken earlier are never touched again: append only adds)
@@ -99,20 +99,20 @@ package runtime
 // a new list with one element per element expression, evaluated in order; the element added last
 // is the value of the last expression (append only adds)
 //@ func RunListInitExpr
-//@ ensures[C04] result2 == nil ==> result1 == ast.List && typeis(result0, []any) && fresh(result0.([]any)) && len(result0.([]any)) == len(expr.List) && ncalls(RunStmt) == tomath(len(expr.List))
+//@ ensures[C04,C15,C16] result2 == nil ==> result1 == ast.List && typeis(result0, []any) && fresh(result0.([]any)) && len(result0.([]any)) == len(expr.List) && ncalls(RunStmt) == tomath(len(expr.List))
 //@ ensures[C04] forall k mathint :: 0 <= k && k < ncalls(RunStmt) ==> callarg(RunStmt, k, 1) == expr.List[toint(k)]
 //@ ensures[C04] result2 == nil && len(expr.List) > 0 ==> result0.([]any)[len(expr.List) - 1] == callres(RunStmt, tomath(len(expr.List)) - 1, 0)
 //@ loop 1
-//@ invariant[C04] fresh(ret) && len(ret) == rangeindex + 1 && ncalls(RunStmt) == tomath(rangeindex) + 1
+//@ invariant[C04,C15,C16] fresh(ret) && len(ret) == rangeindex + 1 && ncalls(RunStmt) == tomath(rangeindex) + 1
 //@ invariant[C04] forall k mathint :: 0 <= k && k < ncalls(RunStmt) ==> callarg(RunStmt, k, 1) == expr.List[toint(k)]
 //@ invariant[C04] rangeindex >= 0 ==> ret[rangeindex] == callres(RunStmt, tomath(rangeindex), 0)
 
 // a new map; a key that is not a string is an error; the pair added last is in the map
 //@ func RunMapInitExpr
-//@ ensures[C04] result2 == nil ==> result1 == ast.Map && typeis(result0, map[string]any) && fresh(result0.(map[string]any)) && ncalls(RunStmt) == 2 * tomath(len(expr.KeyValeList))
+//@ ensures[C04,C15,C16] result2 == nil ==> result1 == ast.Map && typeis(result0, map[string]any) && fresh(result0.(map[string]any)) && ncalls(RunStmt) == 2 * tomath(len(expr.KeyValeList))
 //@ ensures[C04] forall i :: 0 <= i && i < len(expr.KeyValeList) && 2 * tomath(i) + 1 < ncalls(RunStmt) ==> callarg(RunStmt, 2 * tomath(i), 1) == expr.KeyValeList[i][0] && callarg(RunStmt, 2 * tomath(i) + 1, 1) == expr.KeyValeList[i][1]
 //@ ensures[C04] result2 == nil && len(expr.KeyValeList) > 0 ==> typeis(callres(RunStmt, 2 * tomath(len(expr.KeyValeList)) - 2, 0), string) && dom(result0.(map[string]any), callres(RunStmt, 2 * tomath(len(expr.KeyValeList)) - 2, 0).(string)) && result0.(map[string]any)[callres(RunStmt, 2 * tomath(len(expr.KeyValeList)) - 2, 0).(string)] == callres(RunStmt, 2 * tomath(len(expr.KeyValeList)) - 1, 0)
 //@ loop 1
-//@ invariant[C04] ret != nil && fresh(ret) && ncalls(RunStmt) == 2 * (tomath(rangeindex) + 1)
+//@ invariant[C04,C15,C16] ret != nil && fresh(ret) && ncalls(RunStmt) == 2 * (tomath(rangeindex) + 1)
 //@ invariant[C04] forall i :: 0 <= i && i <= rangeindex ==> callarg(RunStmt, 2 * tomath(i), 1) == expr.KeyValeList[i][0] && callarg(RunStmt, 2 * tomath(i) + 1, 1) == expr.KeyValeList[i][1]
 //@ invariant[C04] rangeindex >= 0 ==> typeis(callres(RunStmt, 2 * tomath(rangeindex), 0), string) && dom(ret, callres(RunStmt, 2 * tomath(rangeindex), 0).(string)) && ret[callres(RunStmt, 2 * tomath(rangeindex), 0).(string)] == callres(RunStmt, 2 * tomath(rangeindex) + 1, 0)
